@@ -225,8 +225,8 @@ class FunctionVerifier(object):
                 if short.endswith('#cover') or short.endswith('#supported'):
                     return True
                 if inc:
-                    return any(r.search(short) for r in inc)
-                return not any(r.search(short) for r in exc)
+                    return any(r.search(ob.name) for r in inc)
+                return not any(r.search(ob.name) for r in exc)
             self.obligations = [ob for ob in self.obligations if keep(ob)]
         jobs = []
         for ob in self.obligations:
